@@ -312,8 +312,9 @@ func (a *ArmLoop) computeEffects() {
 	}
 	// effects of library helpers called from the body are attributed to the call site
 	// (inlining bound 3); their row expressions are not tracked (Inlined)
-	var helper func(fn *ssa.Function, depth int, seen map[*ssa.Function]bool) []Effect
-	helper = func(fn *ssa.Function, depth int, seen map[*ssa.Function]bool) []Effect {
+	// Operands that are parameters of the helper are replaced by the arguments of the call.
+	var helper func(fn *ssa.Function, args []ssa.Value, depth int, seen map[*ssa.Function]bool) []Effect
+	helper = func(fn *ssa.Function, args []ssa.Value, depth int, seen map[*ssa.Function]bool) []Effect {
 		if fn == nil || fn.Blocks == nil || depth > 3 || seen[fn] || !a.P.InLib(fn) {
 			return nil
 		}
@@ -321,15 +322,49 @@ func (a *ArmLoop) computeEffects() {
 			return nil // reader/buffer methods are primitives (swap, reads)
 		}
 		seen[fn] = true
+		// bind: parameter → argument (nil when the argument is unknown)
+		bind := func(v ssa.Value) (ssa.Value, bool) {
+			if v == nil {
+				return nil, false
+			}
+			if p, ok := strip(v).(*ssa.Parameter); ok && p.Parent() == fn {
+				for i, q := range fn.Params {
+					if q == p && i < len(args) {
+						return args[i], args[i] != nil
+					}
+				}
+				return nil, false
+			}
+			return nil, false
+		}
 		var out []Effect
 		allInstrs(fn, func(ins ssa.Instruction) {
 			if e, ok := classify(a.P, ins, nil); ok {
-				e.Offset, e.Inlined = nil, true
+				e.Inlined = true
+				if v, ok := bind(e.Offset); ok {
+					e.Offset = strip(v)
+				} else {
+					e.Offset = nil
+				}
+				if v, ok := bind(e.Target); ok {
+					e.Target = v
+				}
+				if v, ok := bind(e.Val); ok {
+					e.Val = v
+				}
 				out = append(out, e)
 				return
 			}
 			if cc, _, _ := callCommon(ins); cc != nil && cc.StaticCallee() != nil {
-				out = append(out, helper(cc.StaticCallee(), depth+1, seen)...)
+				inner := make([]ssa.Value, len(cc.Args))
+				for i, x := range cc.Args {
+					if v, ok := bind(x); ok {
+						inner[i] = v
+					} else if _, isPar := strip(x).(*ssa.Parameter); !isPar {
+						inner[i] = nil
+					}
+				}
+				out = append(out, helper(cc.StaticCallee(), inner, depth+1, seen)...)
 			}
 		})
 		return out
@@ -341,7 +376,7 @@ func (a *ArmLoop) computeEffects() {
 				continue
 			}
 			if cc, _, _ := callCommon(ins); cc != nil && cc.StaticCallee() != nil {
-				for _, e := range helper(cc.StaticCallee(), 1, map[*ssa.Function]bool{}) {
+				for _, e := range helper(cc.StaticCallee(), cc.Args, 1, map[*ssa.Function]bool{}) {
 					e.Ins = ins
 					a.Effects[b] = append(a.Effects[b], e)
 				}
